@@ -195,12 +195,16 @@ def gen_case(r):
         # a file named Manifest on the way up would be taken for the top-level Manifest (discovery is C15's subject)
         if not discoverable(target):
             target = ''
-        c.argv = ['update', '-H', ' '.join(hashes), '-p', profile] + (['-s'] if False else []) + ['@' + target]
-        c.opts = (hashes, None, None, None, profile, None, None, True)
+        nohash = r.random() < 0.06
+        c.argv = ['update'] + ([] if nohash else ['-H', ' '.join(hashes)]) + r.choice([['-p', profile], ['--profile=' + profile]] if (nohash or profile != 'default' or r.random() < 0.7) else [[]]) + ['@' + target]
+        c.opts = (None if nohash else hashes, None, None, None, profile, None, None, True)
+        c.meta['no_hashes_option'] = nohash
         c.ops = [['update', target, [], []], ['touch_timestamp', 0, [2020, 1, 1, 0, 0, 0]], ['save', [], 0, [], [], []]]
     else:
-        c.argv = ['create', '-H', ' '.join(hashes), '-p', profile, '@']
-        c.opts = (hashes, None, None, None, profile, None, None, True)
+        nohash = r.random() < 0.06
+        c.argv = ['create'] + ([] if nohash else ['-H', ' '.join(hashes)]) + ['-p', profile, '@']
+        c.opts = (None if nohash else hashes, None, None, None, profile, None, None, True)
+        c.meta['no_hashes_option'] = nohash
         c.allow_create = True
         c.ops = [['update', '', [], []], ['save', [], 0, [], [], []]]
     return c
@@ -283,6 +287,13 @@ def c18(ctx):
     for c, i, m in zip(cases, impl_res, model):
         mc = model_class(m, c.meta['cmd'])
         ic = list(i)
+        if c.meta.get('no_hashes_option') and c.opts[4] == 'default':
+            # no hash set from the command line nor from the profile: the command-line tool says so and exits 1 (2 for a usage error)
+            if not (ic[0] == 'exit' and ic[1] in (1, 2)) and not (ic[0] == 'exc' and ic[1] == 'OSError'):
+                internal += 1
+                ctx.violation('spec', f'gemato {" ".join(c.argv[:-1])} (no hash set given or implied): {ic[:3]} instead of a diagnosed failure',
+                              {'meta': PU.meta_of(c), 'argv': c.argv, 'impl': ic, 'tree': PT.describe(c.tree)})
+            continue
         k = ':'.join(map(str, ic[:3]))
         classes[k] = classes.get(k, 0) + 1
         replay = {'meta': PU.meta_of(c), 'argv': c.argv, 'opts': list(c.opts), 'impl': ic, 'model': mc, 'tree': PT.describe(c.tree)}
